@@ -120,7 +120,7 @@ func runC18(w *World, r *Report) {
 				if !ok || len(call.Args) != 2 {
 					return true
 				}
-				if id, ok := call.Fun.(*ast.Ident); ok && id.Name == "FindFieldHeaderByName" {
+				if w.isRegistryLookup(w.calleeOf(ctor.Pkg.TypesInfo, call)) {
 					tv0, tv1 := ctor.Pkg.TypesInfo.Types[call.Args[0]], ctor.Pkg.TypesInfo.Types[call.Args[1]]
 					if tv0.Value != nil && tv1.Value != nil && strings.ToUpper(strings.Trim(tv0.Value.ExactString(), "\"")) == "NXM_NX_CT_STATE" && tv1.Value.ExactString() == "true" {
 						found = true
@@ -129,7 +129,7 @@ func runC18(w *World, r *Report) {
 				return true
 			})
 			if found {
-				r.OK("field", "openflow13.NewCTStateMatchField", "lookup", pos, "FindFieldHeaderByName(\"NXM_NX_CT_STATE\", true) with constant arguments", true)
+				r.OK("field", "openflow13.NewCTStateMatchField", "lookup", pos, "the registry lookup is called with the constants \"NXM_NX_CT_STATE\" and true", true)
 			} else {
 				r.Fail(VViolation, "field", "openflow13.NewCTStateMatchField", "lookup", pos, "no registry lookup of \"NXM_NX_CT_STATE\" with the mask requested (constant true) found")
 			}
